@@ -584,6 +584,165 @@ pub fn shape_space(args: &Args) -> (Vec<Shape>, usize, serde_json::Value) {
     (shapes, 1, bounds)
 }
 
+// ---------------------------------------------------------------- types whose serde form depends on is_human_readable
+
+mod hr {
+    use serde::{Deserialize, Deserializer, Serialize, Serializer};
+    use std::collections::BTreeMap;
+    use std::net::IpAddr;
+
+    /// writes "hr" to a human-readable format and 7u8 to a binary one; reading asks the
+    /// deserializer the same question and remembers the answer
+    #[derive(PartialEq, Debug, Clone)]
+    pub struct Probe(pub bool);
+
+    impl Serialize for Probe {
+        fn serialize<S: Serializer>(&self, s: S) -> Result<S::Ok, S::Error> {
+            if s.is_human_readable() {
+                s.serialize_str("hr")
+            } else {
+                s.serialize_u8(7)
+            }
+        }
+    }
+
+    impl<'de> Deserialize<'de> for Probe {
+        fn deserialize<D: Deserializer<'de>>(d: D) -> Result<Self, D::Error> {
+            if d.is_human_readable() {
+                let s = String::deserialize(d)?;
+                if s == "hr" {
+                    Ok(Probe(true))
+                } else {
+                    Err(serde::de::Error::custom("expected \"hr\""))
+                }
+            } else {
+                let n = u8::deserialize(d)?;
+                if n == 7 {
+                    Ok(Probe(false))
+                } else {
+                    Err(serde::de::Error::custom("expected 7"))
+                }
+            }
+        }
+    }
+
+    #[derive(Serialize, Deserialize, PartialEq, Debug, Clone)]
+    pub struct Inner {
+        pub ip: IpAddr,
+        pub probe: Probe,
+    }
+
+    #[derive(Serialize, Deserialize, PartialEq, Debug, Clone)]
+    pub struct Holder {
+        pub ip: IpAddr,
+        pub ips: Vec<IpAddr>,
+        pub opt: Option<IpAddr>,
+        pub by: BTreeMap<String, IpAddr>,
+        pub nested: Inner,
+        pub inners: Vec<Inner>,
+        pub probe: Probe,
+        pub probes: Vec<Probe>,
+        pub maybe: Option<Probe>,
+        pub id: conjure_object::Uuid,
+    }
+
+    #[derive(Serialize, Deserialize, PartialEq, Debug, Clone)]
+    pub struct Wrapper(pub Holder);
+
+    pub fn holder(hr: bool) -> Holder {
+        let v4: IpAddr = "10.1.2.3".parse().unwrap();
+        let v6: IpAddr = "2001:db8::1".parse().unwrap();
+        Holder {
+            ip: v4,
+            ips: vec![v6, v4],
+            opt: Some(v6),
+            by: [("k".to_string(), v4)].into_iter().collect(),
+            nested: Inner { ip: v6, probe: Probe(hr) },
+            inners: vec![Inner { ip: v4, probe: Probe(hr) }],
+            probe: Probe(hr),
+            probes: vec![Probe(hr), Probe(hr)],
+            maybe: Some(Probe(hr)),
+            id: conjure_object::Uuid::from_u128(0x0123_4567_89ab_cdef_fedc_ba98_7654_3210),
+        }
+    }
+}
+
+/// human-readability is one answer per format, at every position and on every path: JSON says
+/// yes, Smile says no, for the serializer and for each deserializer alike
+fn hr_sensitive(r: &mut Report) {
+    use conjure_serde::json as cj;
+    use conjure_serde::smile as cs;
+    fn judge<T: PartialEq + std::fmt::Debug>(r: &mut Report, path: &str, want: &T, got: Result<T, String>) {
+        r.evaluations += 1;
+        r.transitions += 1;
+        match got {
+            Ok(v) if &v == want => r.outcome("hr:round-trips"),
+            other => r.violation(
+                format!("C01|hr-sensitive|roundtrip|{}", path),
+                format!("a value whose serde form depends on is_human_readable (IpAddr, uuid, probe) written by the matching serializer comes back through {} as {:?}, expected {:?}", path, other, want),
+                json!({"kind": "hr-sensitive", "path": path}),
+            ),
+        }
+    }
+    r.states += 4;
+    for (name, root) in [("holder", false), ("newtype(holder)", true)] {
+        // JSON: human readable
+        let h = hr::holder(true);
+        let text = if root { cj::to_string(&hr::Wrapper(h.clone())) } else { cj::to_string(&h) };
+        match text {
+            Err(e) => r.violation(format!("C01|hr-sensitive|serialize|json:{}", name), format!("JSON serialization failed: {}", e), json!({"kind": "hr-sensitive", "path": "json"})),
+            Ok(text) => {
+                let b = text.as_bytes();
+                macro_rules! de {
+                    ($label:expr, $call:expr) => {
+                        if root {
+                            let got: Result<hr::Wrapper, _> = $call;
+                            judge(r, &format!("{}[{}]", $label, name), &h, got.map(|w| w.0).map_err(|e| e.to_string()));
+                        } else {
+                            let got: Result<hr::Holder, _> = $call;
+                            judge(r, &format!("{}[{}]", $label, name), &h, got.map_err(|e| e.to_string()));
+                        }
+                    };
+                }
+                de!("json:client_from_str", cj::client_from_str(&text));
+                de!("json:server_from_str", cj::server_from_str(&text));
+                de!("json:client_from_slice", cj::client_from_slice(b));
+                de!("json:server_from_slice", cj::server_from_slice(b));
+                de!("json:client_from_reader", cj::client_from_reader(ShortReader { data: b, k: 3 }));
+                de!("json:server_from_reader", cj::server_from_reader(ShortReader { data: b, k: 3 }));
+            }
+        }
+        // Smile: binary
+        let h = hr::holder(false);
+        let bytes = if root { cs::to_vec(&hr::Wrapper(h.clone())) } else { cs::to_vec(&h) };
+        match bytes {
+            Err(e) => r.violation(format!("C01|hr-sensitive|serialize|smile:{}", name), format!("Smile serialization failed: {}", e), json!({"kind": "hr-sensitive", "path": "smile"})),
+            Ok(bytes) => {
+                let b = &bytes[..];
+                macro_rules! de {
+                    ($label:expr, $call:expr) => {
+                        if root {
+                            let got: Result<hr::Wrapper, _> = $call;
+                            judge(r, &format!("{}[{}]", $label, name), &h, got.map(|w| w.0).map_err(|e| e.to_string()));
+                        } else {
+                            let got: Result<hr::Holder, _> = $call;
+                            judge(r, &format!("{}[{}]", $label, name), &h, got.map_err(|e| e.to_string()));
+                        }
+                    };
+                }
+                let mut m1 = bytes.clone();
+                let mut m2 = bytes.clone();
+                de!("smile:client_from_slice", cs::client_from_slice(b));
+                de!("smile:server_from_slice", cs::server_from_slice(b));
+                de!("smile:client_from_mut_slice", cs::client_from_mut_slice(&mut m1));
+                de!("smile:server_from_mut_slice", cs::server_from_mut_slice(&mut m2));
+                de!("smile:client_from_reader", cs::client_from_reader(ShortReader { data: b, k: 3 }));
+                de!("smile:server_from_reader", cs::server_from_reader(ShortReader { data: b, k: 3 }));
+            }
+        }
+    }
+}
+
 pub fn run(args: &Args) -> Report {
     let mut report = Report::new("C01", "model_checking");
     if let Some(path) = &args.replay {
@@ -690,6 +849,7 @@ pub fn run(args: &Args) -> Report {
 
     // static derive/std twins: verdict-bearing round trips + conformance of the dynamic engine
     crate::twins::run_all("C01", &mut report);
+    hr_sensitive(&mut report);
 
     report.extra.insert("shapes".into(), json!(shapes.len()));
     report.bounds = bounds.as_object().unwrap().clone();
@@ -726,6 +886,11 @@ fn replay(path: &str, mut report: Report) -> Report {
         if let Some((shape, val)) = sized_case(t["kind"].as_str().unwrap_or(""), t["n"].as_u64().unwrap_or(0) as usize) {
             check_case_tagged(&shape, &val, &mut report, Some(t));
         }
+        report.exhaustive = false;
+        return report;
+    }
+    if v["case"]["kind"] == "hr-sensitive" {
+        hr_sensitive(&mut report);
         report.exhaustive = false;
         return report;
     }
